@@ -870,6 +870,11 @@ def illordered_scenario(rng: random.Random) -> list[Case]:
             c_dec.desc = (f"decoded origin {'==' if r == o else '!='} original ({r!r} vs {o!r}); ") + c_dec.desc
             c_dec.kind, c_dec.sig, c_dec.oracle_fail = "oc:registry-illordered", SIG + "registry-illordered", None
             out.append(c_dec)
+            # the property itself (index-based serialization round-trips once the sources are loaded) on the real code
+            out.append(Case("oc:index-roundtrip-oracle", None, None, True, c_dec.desc,
+                            oracle_fail=None if r == o else
+                            f"index-based source serialization came back as another origin: {r!r} instead of {o!r}",
+                            sig="source-index|set-registered-before-member"))
     return out
 
 
